@@ -61,6 +61,10 @@ type Pool struct {
 
 	pruningHeight uint64
 	pruningTime   time.Time
+
+	// evidence formed by consensus for a height whose block is not committed yet;
+	// it gets that block's time, which everybody else verifies it against, in Update
+	consensusBuffer []*types.DuplicateVoteEvidence
 }
 
 // NewPool creates an evidence pool. If using an existing evidence store,
@@ -119,6 +123,17 @@ func (evpool *Pool) Update(state cstate.LatestBlockState, ev types.EvidenceList)
 	evpool.updateState(state)
 
 	evpool.markEvidenceAsCommitted(ev)
+
+	// evidence reported by consensus while this block was still being decided
+	evpool.mtx.Lock()
+	buffered := evpool.consensusBuffer
+	evpool.consensusBuffer = nil
+	evpool.mtx.Unlock()
+	for _, dve := range buffered {
+		if err := evpool.AddEvidenceFromConsensus(dve); err != nil {
+			evpool.logger.Error("Failed to add buffered evidence from consensus", "err", err)
+		}
+	}
 
 	// prune pending evidence when it has expired. This also updates when the next evidence will expire
 	if evpool.Size() > 0 && state.LastBlockHeight > evpool.pruningHeight &&
@@ -345,6 +360,19 @@ func (evpool *Pool) AddEvidence(ev types.Evidence) error {
 // AddEvidenceFromConsensus should be exposed only to the consensus so it can add evidence to the pool
 // directly without the need for verification.
 func (evpool *Pool) AddEvidenceFromConsensus(ev types.Evidence) error {
+	// Evidence must carry the time of the block at its height: verify() demands that of
+	// evidence from peers and in blocks. Consensus cannot know it while that height is
+	// still undecided (its own LastCommit need not be the one the block will carry).
+	if dve, ok := ev.(*types.DuplicateVoteEvidence); ok {
+		if meta := evpool.blockStore.LoadBlockMeta(ev.Height()); meta != nil {
+			dve.Timestamp = meta.Header.Time
+		} else {
+			evpool.mtx.Lock()
+			evpool.consensusBuffer = append(evpool.consensusBuffer, dve)
+			evpool.mtx.Unlock()
+			return nil
+		}
+	}
 	// we already have this evidence, log this but don't return an error.
 	if evpool.isPending(ev) {
 		evpool.logger.Info("Evidence already pending, ignoring this one", "ev", ev)
